@@ -704,6 +704,13 @@ def check_progress(world, hist, pred, idx, text, outp, logs, name):
 # ---------------------------------------------------------------------------
 # C16
 # ---------------------------------------------------------------------------
+_XML_UNSAFE = re.compile(u"[\\x00-\\x08\\x0b-\\x1f\\x7f-\\x9f\\ufffe\\uffff]|\\]\\]>")
+
+
+def _xml_safe_head(name):
+    return _XML_UNSAFE.split(name, 1)[0]
+
+
 def check_C16(world, hist, pred):
     out = []
     if hist.get("config_error") or not world["cfg"].get("junit"):
@@ -788,7 +795,8 @@ def check_C16(world, hist, pred):
                 if resp:
                     nm = resp[0]["name"]
                     # several candidates can be 'responsible' (failed step, later undefined step, hook)
-                    if not any(r["name"] in blob for r in resp) and \
+                    # (characters that XML cannot hold are re-written by the reporter: compare the part before them)
+                    if not any(_xml_safe_head(r["name"]) in blob for r in resp) and \
                             not (n.get("hook_failed") and "HOOK-ERROR" in blob):
                         out.append(V("C16", "missing-failure-entry", "step-not-named", scen=n["id"], step=nm))
                 elif n.get("hook_failed"):
